@@ -246,6 +246,12 @@ def build_iterable(form, src, passset, is_async):
         return iter(list(src)), None
     if form == "gen":
         return cgen(), cnt
+    if form == "reiter":
+        # iterable again and again, but without __len__: the loop must go on with its own iterator, not start over
+        class ReIter:
+            def __iter__(self_):
+                return cgen()
+        return ReIter(), cnt
     if form == "agen":
         return cagen(), cnt
     if form == "fgen":
@@ -276,7 +282,7 @@ def object_forms(kind, on, is_async):
         return ["fgen/int", "fagen"] if is_async else ["fgen", "fgen/int"]
     if kind == "sized":
         return ["list", "tuple/int", "str"]
-    return ["gen/int", "agen", "iter"] if is_async else ["gen", "iter/int"]
+    return ["gen/int", "agen", "iter", "reiter"] if is_async else ["gen", "iter/int", "reiter", "reiter/int"]
 
 
 def new_ctx(form, src, passset, is_async):
@@ -649,7 +655,7 @@ def tree_template(events, on, rnd, scheme):
     return src, {"wrappers": sorted(tb.used), "recurse": rec}
 
 
-FLAT_FORMS = {False: ["list", "tuple", "str", "iter", "gen"], True: ["list", "tuple", "iter", "gen", "agen"]}
+FLAT_FORMS = {False: ["list", "tuple", "str", "iter", "gen", "reiter"], True: ["list", "tuple", "iter", "gen", "agen", "reiter"]}
 TREE_FORMS = {False: ["list", "tuple", "gen"], True: ["list", "gen", "agen"]}
 
 
